@@ -115,6 +115,9 @@ pub(crate) enum State {
 #[cfg_attr(feature = "defmt-03", derive(defmt::Format))]
 pub enum Error {
     NotJoined,
+    /// The application payload, together with the MAC answers queued for this uplink, does not
+    /// fit into a frame.
+    PayloadTooLarge,
     #[cfg(feature = "multicast")]
     Multicast(multicast::Error),
 }
@@ -189,6 +192,14 @@ impl Mac {
     ) -> Result<(radio::TxConfig, RxWindows, FcntUp)> {
         let fcnt = match &mut self.state {
             State::Joined(session) => {
+                // MHDR, FHDR with the queued MAC answers in FOpts, FPort, payload and MIC must fit
+                // the radio buffer and the 255 byte PHY payload; refuse instead of panicking
+                // while assembling the frame.
+                let frame_len =
+                    1 + 7 + session.uplink.mac_commands().len() + 1 + send_data.data.len() + 4;
+                if frame_len >= N || frame_len > 255 {
+                    return Err(Error::PayloadTooLarge);
+                }
                 Ok(session.prepare_buffer::<N>(send_data, buf, &self.configuration, &self.region))
             }
             State::Otaa(_) => Err(Error::NotJoined),
